@@ -208,6 +208,9 @@ type reqSpec struct {
 	acrm      string
 	acrh      string
 	acrpn     string
+	// funcToggle: before this request the allow function's answer for that (lower-cased) origin
+	// is flipped (grant / revoke): the middleware has to ask the function on every request
+	funcToggle string
 }
 
 func (r *reqSpec) class() string {
@@ -720,6 +723,14 @@ func judge(e *ev.Env, c *ev.Case, sc *scenario) {
 	d := drive.NewDirect(app)
 	all := s.allowAll()
 	for qi, q := range sc.reqs {
+		if q.funcToggle != "" && s.hasFunc {
+			if s.funcSet[q.funcToggle] {
+				delete(s.funcSet, q.funcToggle)
+			} else {
+				s.funcSet[q.funcToggle] = true
+			}
+			stat(e, "allow_func_answer_toggled", 1)
+		}
 		rq := &drive.Req{Method: q.method, URI: q.path}
 		if q.hasOrigin {
 			rq.Hdr = append(rq.Hdr, drive.H{K: "Origin", V: q.origin})
@@ -1019,6 +1030,17 @@ func run(e *ev.Env) {
 			sc.reqs = append(sc.reqs, genReq(r, sc.cfg))
 		}
 		fillFunc(r, sc)
+		if sc.cfg.hasFunc && r.Chance(1, 2) {
+			// the same origin again after the function changed its mind about it
+			for k := 0; k < 2; k++ {
+				q := sc.reqs[r.Intn(len(sc.reqs))]
+				if q.hasOrigin && q.inDomain {
+					cp := *q
+					cp.funcToggle = strings.ToLower(q.origin)
+					sc.reqs = append(sc.reqs, &cp)
+				}
+			}
+		}
 		judge(e, c, sc)
 	})
 
